@@ -35,8 +35,10 @@ func checkC11(p *Prog, r *Report) {
 	r.rule("C11.D4", "every index of Listener.sessions is <address>.String() of the datagram's source (lookup, insert) or of the closing session's remote (delete)", 4)
 	r.rule("C11.D5", "in KCP.Input every state-changing call and store of the segment loop is dominated by conv == kcp.conv", 6)
 	r.rule("C11.D6", "both read loops of dialled sessions reach packetInput only after learning the first source or after the source matched; a mismatch continues with the next datagram; sameUDPAddr compares IP, port and zone", 3)
+	r.rule("C11.D8", "one session cannot stall the others: no lock-order cycle between a session's mutex and the listener's table lock (= C13.W12) — the blocked goroutine would be the listener's only receive loop, so every session on the socket goes deaf", 1)
 	r.rule("C11.D7", "UDPSession.Close removes the session from its listener (closeSession(s.remote)) on the first close; Listener.packetInput has a single caller chain (the monitor goroutine)", 2)
 
+	checkLockOrder(p, r, "C11.D8")
 	lp := p.FuncByName("(*Listener).packetInput")
 	if lp == nil {
 		brokenCheck("ANCHOR-UNRESOLVED role=func (*Listener).packetInput")
